@@ -625,6 +625,35 @@ void body(ctx_t& c)
         if (!scale_threw)
         {
             const auto sp = scaled->predict(dataset, all);
+            // rounding: affine / hinge predictions are sums of terms (w * x + b) that may cancel, so the error of a scaled
+            // prediction is relative to the magnitude of the TERMS, not of the result
+            double term = 0.0;
+            for (tensor_size_t i = 0; i < sim.predictions.size(); ++i)
+            {
+                term = std::max(term, std::fabs(sim.predictions(i)));
+            }
+            if (const auto* single = dynamic_cast<const single_feature_wlearner_t*>(&learner))
+            {
+                double tmax = 0.0, xmax = 1.0;
+                for (tensor_size_t i = 0; i < single->tables().size(); ++i)
+                {
+                    tmax = std::max(tmax, std::fabs(single->tables()(i)));
+                }
+                if (dataset.feature(single->feature()).is_scalar())
+                {
+                    scalar_mem_t b;
+                    const auto   v = dataset.select(all, single->feature(), b);
+                    for (tensor_size_t i = 0; i < total; ++i)
+                    {
+                        if (std::isfinite(v(i)))
+                        {
+                            xmax = std::max(xmax, std::fabs(v(i)));
+                        }
+                    }
+                }
+                term = std::max(term, tmax * xmax);
+            }
+            const double smax = factors.max();
             for (tensor_size_t i = 0; i < total && !c.failed(); ++i)
             {
                 const auto g = cluster.group(i);
@@ -632,7 +661,7 @@ void body(ctx_t& c)
                 for (tensor_size_t k = 0; k < p.tsize; ++k)
                 {
                     const auto expect = (per_group && g < 0) ? 0.0 : s * sim.predictions(i * p.tsize + k);
-                    if (!vf::close(sp(i * p.tsize + k), expect, 1e-12, 1e-13))
+                    if (!vf::close(sp(i * p.tsize + k), expect, 1e-12, 1e-13 + 1e-12 * term * std::max(1.0, smax)))
                     {
                         c.fail("scale-not-multiplicative", id + ": scale(" + std::string(per_group ? "per group" : "scalar") + ") does not multiply the predictions");
                         break;
